@@ -4,7 +4,9 @@ Generator : a SCHEDULE (op list interpreted by a step function, the harness owns
             symbolic_mode() / rule_mode() / symbolic_mode(q) / rule_mode(q) / `with q:` (explicit __enter__); leave the
             innermost block normally or by an exception thrown through 1..n enclosing blocks (exactly the __exit__ calls a
             `with` statement makes); create a result iterator from a pool of prepared queries; advance it; drain it;
-            close() it; drop the last reference (+ gc).  Iterators live across block boundaries.  <= 25 steps.
+            close() it; drop the last reference (+ gc); evaluate the(...) queries that return / raise NoSolutionFound /
+            raise MultipleSolutionFound; advance an iterator whose user predicate raises.  Iterators live across block
+            boundaries.  <= 25 steps.
 Oracle    : a stack model.  mode = mode of the topmost mode frame (or None); context = object pushed by the topmost
             query frame.  After EVERY step: in_symbolic_mode(), in_symbolic_mode(Rule), in_symbolic_mode(Query), the
             expression-context depth and top element equal the model, and behavioural probes agree with the model's mode:
@@ -20,7 +22,7 @@ from hypothesis import strategies as st
 
 from .. import ast as A
 from ..runner import Outcome, fail
-from ..world import build_entities, Ent, Other, p_a_ge, CLASSES
+from ..world import build_entities, Ent, Other, p_a_ge, CLASSES, FAULT, InjectedFault
 from ..build import build_query
 from ..qcheck import satisfying
 
@@ -41,11 +43,14 @@ ASSUMPTIONS = ["single thread: the schedules are the interleavings of block entr
                "by the harness", "the bitwise operators &, |, ~ outside a block are not in the guarded set and are not probed"]
 
 _V = ["var", 0]
+THE = {"one": ["cmp", "==", ["attr", _V, "k"], ["const", 2]], "none": ["cpred", "IsBig", [["attr", _V, "ref"]]],
+       "multi": ["fpred", "p_a_ge", [_V, ["const", 2]]]}     # over DATA: exactly one / no / three solutions
 POOL = [
     ["cmp", ">=", ["attr", _V, "a"], ["const", 2]],
     ["fpred", "p_a_ge", [_V, ["const", 2]]],
     ["and", "nary", [["cpred", "IsBig", [_V]], ["cmp", "!=", ["attr", _V, "b"], ["const", 9]]]],
     ["or", "nary", [["cmp", "==", ["attr", _V, "a"], ["const", 1]], ["truth", ["call", _V, "is_big", []]]]],
+    ["fpred", "p_flaky", [_V, ["const", 1]]],          # user code that can be made to raise (fault injection)
 ]
 DATA = [{"cls": c, "k": i + 1, "a": a, "b": b, "s": "x", "tags": [1], "o": 1, "ref": 0, "kids": [0],
          "d": {"p": 1, "q": 2}} for i, (c, a, b) in enumerate([("Ent", 1, 2), ("EntSub", 2, 1), ("Ent", 3, 3), ("EntPlain", 2, 2)])]
@@ -58,15 +63,17 @@ def _schedule(draw, tier):
     ops = []
     for _ in range(draw(st.integers(3, 25))):
         k = draw(st.sampled_from(["enter", "enter", "leave", "leave", "raise", "new", "new", "next", "next", "next",
-                                  "drain", "close", "drop"]))
+                                  "drain", "close", "drop", "the", "the", "next_raise"]))
         if k == "enter":
             ops.append(["enter", draw(st.sampled_from(ENTER_KINDS)), draw(st.integers(0, len(POOL) - 1))])
         elif k == "raise":
             ops.append(["raise", draw(st.integers(1, 3))])
         elif k == "new":
             ops.append(["new", draw(st.integers(0, len(POOL) - 1))])
-        elif k in ("next", "drain", "close", "drop"):
+        elif k in ("next", "drain", "close", "drop", "next_raise"):
             ops.append([k, draw(st.integers(0, 5))])
+        elif k == "the":
+            ops.append(["the", draw(st.sampled_from(["one", "none", "multi"]))])
         else:
             ops.append([k])
     return {"ops": ops}
@@ -130,6 +137,9 @@ def check(case) -> Outcome:
         c = _case_for(cond)
         queries.append(build_query(c, objs).q)
         expected.append([a[0] for a in satisfying(c, objs)])
+    from entity_query_language import MultipleSolutionFound, NoSolutionFound
+    the_queries = {name: build_query(_case_for(cond), objs, quant="the").q for name, cond in THE.items()}
+    FAULT.update(armed=False, calls=0, at=0)
     probe_var = let(Ent, domain=[objs[0]])
     frames = []          # model: dicts(kind, cm, mode, ctx(bool), top)
     iters = []           # dicts(gen, qi, pos, epoch_created, alive)
@@ -227,6 +237,42 @@ def check(case) -> Outcome:
                     classes.add("exception_through_2plus")
             elif k == "new":
                 iters.append({"gen": queries[op[1]].evaluate(), "qi": op[1], "pos": 0, "epoch": epoch, "alive": True})
+            elif k == "the":
+                # evaluating the(...) here, inside whatever blocks are open; it may raise by contract
+                try:
+                    r = the_queries[op[1]].evaluate()
+                    got = "value" if r is objs[1] else f"wrong value {r!r}"
+                except MultipleSolutionFound:
+                    got = "multi"
+                except NoSolutionFound:
+                    got = "none"
+                except Exception as e:
+                    got = f"{type(e).__name__}: {e}"
+                want_ = {"one": "value", "none": "none", "multi": "multi"}[op[1]]
+                if got != want_:
+                    return fail("the_outcome", f"step {step} {op}: the(...) evaluated with open frames "
+                                               f"{[f['kind'] for f in frames]} gave {got}, expected {want_}")
+                classes.add("the_" + op[1] + ("_inside" if frames else "_outside"))
+                if frames and op[1] != "one":
+                    nontrivial = True
+            elif k == "next_raise":
+                live = [it for it in iters if it["alive"] and it["qi"] == len(POOL) - 1]
+                if not live:
+                    continue
+                it = live[op[1] % len(live)]
+                touch(it)
+                FAULT.update(armed=True, calls=0, at=1)      # the user predicate raises at its next call
+                try:
+                    next(it["gen"])
+                except InjectedFault:
+                    classes.add("user_code_raised_inside" if frames else "user_code_raised_outside")
+                    if frames:
+                        nontrivial = True
+                except StopIteration:
+                    pass
+                finally:
+                    FAULT.update(armed=False, calls=0, at=0)
+                it["alive"] = False
             elif k in ("next", "drain", "close", "drop"):
                 live = [it for it in iters if it["alive"]]
                 if not live:
@@ -302,6 +348,7 @@ def check(case) -> Outcome:
                     pass
         _symbolic_mode.set(None)
         del SymbolicExpression._symbolic_expression_stack_[:]
+        FAULT.update(armed=False, calls=0, at=0)
     return Outcome(True, nontrivial=nontrivial, classes=sorted(classes))
 
 
